@@ -1167,6 +1167,11 @@ impl TDigestView<'_> {
         }
         let last_weight = self.centroids[num_centroids - 1].weight();
         if last_weight > 1. && (centroids_weight - weight <= last_weight / 2.) {
+            if last_weight <= 2. {
+                // one of the two samples is max itself; nothing to interpolate (and the
+                // interpolation below would divide zero by zero)
+                return Some(self.max);
+            }
             return Some(
                 self.max
                     - (((centroids_weight - weight - 1.) / ((last_weight / 2.) - 1.))
